@@ -47,7 +47,8 @@ STRATEGIES = ["plain", "page_by", "page_by_np", "page_by_np_first", "subline", "
 
 def gen_spec(rng, *, strategy=None, n=None, nrow=None, header_mode=None, footnote=None, source=None,
              placements=None, long_rows=True, dividers=False, levels=None, title=None, subline=None,
-             page_headers=None, nulls=0.0, geometry=None, pageby_header=None, font=None, size=None, collide=False):
+             page_headers=None, nulls=0.0, geometry=None, pageby_header=None, font=None, size=None, collide=False,
+             numeric_keys=False):
     """Returns (spec, info). info carries what the oracles need (keys, displayed columns, …)."""
     strategy = strategy or rng.choice(STRATEGIES + ["plain"])
     n = rng.randint(0, 40) if n is None else n
@@ -119,6 +120,19 @@ def gen_spec(rng, *, strategy=None, n=None, nrow=None, header_mode=None, footnot
             o[b:a1] = ["G0zG1y"] * (a1 - b)
             i1[lo:b] = ["G1yG1x"] * (b - lo)
             i1[b:hi + 1] = ["G1x"] * (hi + 1 - b)
+
+    numeric = None
+    if numeric_keys and page_by and n:
+        # the outermost page_by column holds numbers or booleans whose first value is falsy (0, 0.0, False):
+        # the heading shows str(value)
+        kc = page_by[0]
+        code = {}
+        for v in keyvals[kc]:
+            code.setdefault(v, len(code))
+        if "-----" not in code:
+            numeric = rng.choice(["int", "float", "bool"] if len(code) <= 2 else ["int", "float", "int0"])
+            conv = {"int": lambda c: c, "int0": lambda c: c - 1, "float": lambda c: float(c), "bool": lambda c: c == 1}[numeric]
+            keyvals[kc] = [conv(code[v]) for v in keyvals[kc]]
 
     datacols = [f"COL{j}" for j in range(ndata)]
     all_cols = hier + datacols
@@ -198,7 +212,7 @@ def gen_spec(rng, *, strategy=None, n=None, nrow=None, header_mode=None, footnot
                 footnote=fspec, source=sspec,
                 page_header=dict(text="PGHDR") if has_ph else None,
                 page_footer=dict(text="PGFTR") if has_ph else None)
-    info = dict(strategy=strategy, n=n, ndata=ndata, hier=hier, page_by=page_by, subline_by=subline_by,
+    info = dict(numeric_keys=numeric, strategy=strategy, n=n, ndata=ndata, hier=hier, page_by=page_by, subline_by=subline_by,
                 displayed=displayed, removed=sorted(removed), col_total=col_total, header_mode=header_mode,
                 footnote=fk, source=sk, placements=[pt, pf, ps], new_page=new_page, pageby_row=pageby_row,
                 pageby_header=ph, has_title=has_title, has_subline_txt=has_subl, nrow=nrow, font=font or 1,
@@ -242,8 +256,8 @@ def ldoc_of(spec, info):
             w = measure(str(r[ci]), attr_at(body.get("text_font"), ri, ci, 1),
                         attr_at(body.get("text_font_size"), ri, ci, 9))
             ln = max(ln, max(1, int(w / widths[k]) + 1))
-        pk = [r[cols.index(c)] for c in pb]
-        sk = [r[cols.index(c)] for c in sb]
+        pk = [v if (v is None or isinstance(v, str)) else str(v) for v in (r[cols.index(c)] for c in pb)]
+        sk = [v if (v is None or isinstance(v, str)) else str(v) for v in (r[cols.index(c)] for c in sb)]
 
         def hrows(names, vals):
             parts = [f"{c}: {v}" for c, v in zip(names, vals) if str(v) != "-----"]
@@ -270,6 +284,7 @@ def ldoc_of(spec, info):
 _DATA = re.compile(r"^\s*r(\d+)c(\d+)")
 _HD = re.compile(r"^HD(\d+)c(\d+)")
 _GV = re.compile(r"^G(\d+)[a-z]")
+_NUMKEY = re.compile(r"^(-?\d+(\.\d+)?|True|False)$")
 
 
 def classify(doc: rtfread.Doc, info):
@@ -317,6 +332,8 @@ def classify(doc: rtfread.Doc, info):
                         role = ["source", True]
                     elif len(texts) == 1 and _GV.match(t0):
                         role = ["heading", int(_GV.match(t0).group(1)), t0]
+                    elif len(texts) == 1 and info.get("numeric_keys") and _NUMKEY.match(t0):
+                        role = ["heading", 0, t0]      # numeric / boolean values of the outermost page_by column
                     elif t0.startswith("COL") or t0.startswith("PB") or t0.startswith("SL"):
                         role = ["colHeader", 0]
                     elif all(t == "" for t in texts) or all((t == "" or t == "-----" or _GV.match(t) or t.startswith("SB"))
